@@ -1,11 +1,11 @@
 //go:build verif
 
-// Contracts for package simplebankedmemory, property C18 (comment-only; read by /verif/engine, never compiled into a build).
+// Contracts for package gmmu, property C18 (comment-only; read by /verif/engine, never compiled into a build).
 // C18 (per-step part): the control middleware answers each control request exactly once, echoing its command / ID / source,
 // refuses unsupported verbs, and moves ControlState as mem/CONTROL_PROTOCOL.md says.
 // View: the "Control" port's incoming head is the request being handled; m.comp.State.ControlState is the lifecycle state;
-// m.comp.State.Banks is the in-flight bookkeeping (quiescent <==> every bank pipeline and post-pipeline buffer empty).
-package simplebankedmemory
+// m.comp.State.WalkingTranslations / RemoteMemReqs are the in-flight bookkeeping (quiescent <==> both empty).
+package gmmu
 
 // ---- ghost view of the ports (same names, meaning and trusted interface contracts as mem/rob's C21 file; ghost state is per package) ----
 //@ ghost var canSend set
@@ -61,16 +61,8 @@ package simplebankedmemory
 //@   ensures !old(issued)[result] && issued == upd(old(issued), result, true)
 //@   assigns issued, key("O|timing.sequentialIDGenerator|nextID"), key("O|timing.parallelIDGenerator|nextID")
 //@ pred idGenOK() = timing.idGeneratorInstantiated ==> timing.idGenerator != nil
-// tracing entry points end in arbitrary user hooks: assumed not to touch the component, its ports or the ID generator
-//@ ext tracing.EndReqInOnReset(domain, id)
-//@   trusted
-//@   assigns nothing
-//@ ext tracing.EndTaskOnReset(domain, taskID)
-//@   trusted
-//@   assigns nothing
+// (endInflightTasks and the tracing entry points are under contract in the package's C03 file: they only append to the ghost log c03EndN/c03EndSeq)
 
-// a bank is quiescent when its pipeline holds no stage record and its post-pipeline buffer is empty
-//@ pred c18BankQuiet(m, i) = len(m.comp.State.Banks[i].Pipeline.stages) == 0 && len(m.comp.State.Banks[i].PostPipelineBuf.elements) == 0
 // ---- views (c18-prefixed: no clash with the package's other contract files) ----
 //@ func c18Port(m, n) = m.comp.TickingComponent.PortOwnerBase.ports[n]
 //@ func c18Ctl(m) = ifaceval(c18Port(m, "Control"))
@@ -88,23 +80,23 @@ package simplebankedmemory
 //@ pred c18Supported(c) = c == memcontrolprotocol.CmdPause || c == memcontrolprotocol.CmdDrain || c == memcontrolprotocol.CmdEnable || c == memcontrolprotocol.CmdReset
 // the response sent last on the control port answers (cmd, id, src) with (success, err)
 //@ pred c18Answers(m, cmd, id, src, success, err) = c18IsRsp(c18Last(c18Ctl(m))) && c18Rsp(c18Ctl(m)).Command == cmd && c18Rsp(c18Ctl(m)).RspTo == id && c18Rsp(c18Ctl(m)).Dst == src && c18Rsp(c18Ctl(m)).Success == success && c18Rsp(c18Ctl(m)).Error == err
-//@ pred c18WF(m) = m.comp != nil && m.comp.TickingComponent != nil && m.comp.TickingComponent.PortOwnerBase != nil && ("Control" in m.comp.TickingComponent.PortOwnerBase.ports) && ("Top" in m.comp.TickingComponent.PortOwnerBase.ports) && c18Ctl(m) != ifaceval(c18Port(m, "Top"))
-//@ pred c18Quiet(m) = forall i in 0..len(m.comp.State.Banks) :: c18BankQuiet(m, i)
-//@ pred c18Kept(m) = unchanged(m.comp.State.ControlState) && unchanged(m.comp.State.CurrentCmdID) && unchanged(m.comp.State.CurrentCmdSrc) && unchanged(m.comp.State.Banks)
+//@ pred c18WF(m) = m.comp != nil && m.comp.TickingComponent != nil && m.comp.TickingComponent.PortOwnerBase != nil && ("Control" in m.comp.TickingComponent.PortOwnerBase.ports) && m != nil && ("Top" in m.comp.TickingComponent.PortOwnerBase.ports) && c18Ctl(m) != c18P(m, "Top") && ("Bottom" in m.comp.TickingComponent.PortOwnerBase.ports) && c18Ctl(m) != c18P(m, "Bottom")
+//@ pred c18Quiet(m) = len(m.comp.State.WalkingTranslations) == 0 && len(m.comp.State.RemoteMemReqs) == 0
+//@ pred c18Kept(m) = unchanged(m.comp.State.ControlState) && unchanged(m.comp.State.CurrentCmdID) && unchanged(m.comp.State.CurrentCmdSrc) && unchanged(m.comp.State.WalkingTranslations) && unchanged(m.comp.State.RemoteMemReqs)
 
 //@ fn (*ctrlMiddleware).ctrlPort
 //@   property C18
 //@   requires c18WF(m)
-//@   label C18.sbm.ctrlport
+//@   label C18.gmmu.ctrlport
 //@   ensures result == c18Port(m, "Control")
 //@   assigns nothing
 
 //@ fn makeCtrlRsp
 //@   property C18
 //@   requires idGenOK()
-//@   label C18.sbm.mkrsp.fields
+//@   label C18.gmmu.mkrsp.fields
 //@   ensures result.Command == cmd && result.Success == success && result.Error == errStr && result.Dst == dst && result.RspTo == rspTo
-//@   label C18.sbm.mkrsp.idgen
+//@   label C18.gmmu.mkrsp.idgen
 //@   ensures idGenOK()
 //@   assigns issued, key("G|github.com/sarchlab/akita/v5/timing.idGenerator|"), key("G|github.com/sarchlab/akita/v5/timing.idGeneratorInstantiated|"), key("O|timing.sequentialIDGenerator|nextID"), key("O|timing.parallelIDGenerator|nextID")
 
@@ -112,51 +104,51 @@ package simplebankedmemory
 //@ fn (*ctrlMiddleware).handlePause
 //@   property C18
 //@   requires c18WF(m) && idGenOK() && inTyp[c18Ctl(m)] != 0
-//@   label C18.sbm.pause.progress
+//@   label C18.gmmu.pause.progress
 //@   ensures result <==> old(canSend[c18Ctl(m)])
-//@   label C18.sbm.pause.once
+//@   label C18.gmmu.pause.once
 //@   ensures result ==> c18OneSent(c18Ctl(m)) && c18OneRetr(c18Ctl(m))
-//@   label C18.sbm.pause.blocked
+//@   label C18.gmmu.pause.blocked
 //@   ensures !result ==> c18NoSend() && c18NoRetr() && c18Kept(m)
-//@   label C18.sbm.pause.echo
+//@   label C18.gmmu.pause.echo
 //@   ensures result ==> c18Answers(m, memcontrolprotocol.CmdPause, req.ID, req.Src, true, "")
-//@   label C18.sbm.pause.state
-//@   ensures result ==> m.comp.State.ControlState == memcontrolprotocol.StatePaused && unchanged(m.comp.State.Banks)
-//@   label C18.sbm.pause.idgen
+//@   label C18.gmmu.pause.state
+//@   ensures result ==> m.comp.State.ControlState == memcontrolprotocol.StatePaused && unchanged(m.comp.State.WalkingTranslations) && unchanged(m.comp.State.RemoteMemReqs)
+//@   label C18.gmmu.pause.idgen
 //@   ensures idGenOK()
 //@   assigns m.comp.State.ControlState, canSend, sendCnt, sentTyp, sentVal, inTyp, inVal, retrCnt, issued, key("G|github.com/sarchlab/akita/v5/timing.idGenerator|"), key("G|github.com/sarchlab/akita/v5/timing.idGeneratorInstantiated|"), key("O|timing.sequentialIDGenerator|nextID"), key("O|timing.parallelIDGenerator|nextID")
 
 //@ fn (*ctrlMiddleware).handleEnable
 //@   property C18
 //@   requires c18WF(m) && idGenOK() && inTyp[c18Ctl(m)] != 0
-//@   label C18.sbm.enable.progress
+//@   label C18.gmmu.enable.progress
 //@   ensures result <==> old(canSend[c18Ctl(m)])
-//@   label C18.sbm.enable.once
+//@   label C18.gmmu.enable.once
 //@   ensures result ==> c18OneSent(c18Ctl(m)) && c18OneRetr(c18Ctl(m))
-//@   label C18.sbm.enable.blocked
+//@   label C18.gmmu.enable.blocked
 //@   ensures !result ==> c18NoSend() && c18NoRetr() && c18Kept(m)
-//@   label C18.sbm.enable.echo
+//@   label C18.gmmu.enable.echo
 //@   ensures result ==> c18Answers(m, memcontrolprotocol.CmdEnable, req.ID, req.Src, true, "")
-//@   label C18.sbm.enable.state
-//@   ensures result ==> m.comp.State.ControlState == memcontrolprotocol.StateEnabled && unchanged(m.comp.State.Banks)
-//@   label C18.sbm.enable.idgen
+//@   label C18.gmmu.enable.state
+//@   ensures result ==> m.comp.State.ControlState == memcontrolprotocol.StateEnabled && unchanged(m.comp.State.WalkingTranslations) && unchanged(m.comp.State.RemoteMemReqs)
+//@   label C18.gmmu.enable.idgen
 //@   ensures idGenOK()
 //@   assigns m.comp.State.ControlState, canSend, sendCnt, sentTyp, sentVal, inTyp, inVal, retrCnt, issued, key("G|github.com/sarchlab/akita/v5/timing.idGenerator|"), key("G|github.com/sarchlab/akita/v5/timing.idGeneratorInstantiated|"), key("O|timing.sequentialIDGenerator|nextID"), key("O|timing.parallelIDGenerator|nextID")
 
 //@ fn (*ctrlMiddleware).handleUnsupported
 //@   property C18
 //@   requires c18WF(m) && idGenOK() && inTyp[c18Ctl(m)] != 0
-//@   label C18.sbm.unsupported.progress
+//@   label C18.gmmu.unsupported.progress
 //@   ensures result <==> old(canSend[c18Ctl(m)])
-//@   label C18.sbm.unsupported.once
+//@   label C18.gmmu.unsupported.once
 //@   ensures result ==> c18OneSent(c18Ctl(m)) && c18OneRetr(c18Ctl(m))
-//@   label C18.sbm.unsupported.blocked
+//@   label C18.gmmu.unsupported.blocked
 //@   ensures !result ==> c18NoSend() && c18NoRetr() && c18Kept(m)
-//@   label C18.sbm.unsupported.echo
+//@   label C18.gmmu.unsupported.echo
 //@   ensures result ==> c18Answers(m, req.Command, req.ID, req.Src, false, memcontrolprotocol.ErrUnsupported)
-//@   label C18.sbm.unsupported.state
+//@   label C18.gmmu.unsupported.state
 //@   ensures c18Kept(m)
-//@   label C18.sbm.unsupported.idgen
+//@   label C18.gmmu.unsupported.idgen
 //@   ensures idGenOK()
 //@   assigns canSend, sendCnt, sentTyp, sentVal, inTyp, inVal, retrCnt, issued, key("G|github.com/sarchlab/akita/v5/timing.idGenerator|"), key("G|github.com/sarchlab/akita/v5/timing.idGeneratorInstantiated|"), key("O|timing.sequentialIDGenerator|nextID"), key("O|timing.parallelIDGenerator|nextID")
 
@@ -164,92 +156,73 @@ package simplebankedmemory
 //@ fn (*ctrlMiddleware).handleDrain
 //@   property C18
 //@   requires c18WF(m) && inTyp[c18Ctl(m)] != 0
-//@   label C18.sbm.drain.accept
+//@   label C18.gmmu.drain.accept
 //@   ensures result && c18NoSend() && c18OneRetr(c18Ctl(m))
-//@   label C18.sbm.drain.remember
-//@   ensures m.comp.State.ControlState == memcontrolprotocol.StateDraining && m.comp.State.CurrentCmdID == req.ID && m.comp.State.CurrentCmdSrc == req.Src && unchanged(m.comp.State.Banks)
+//@   label C18.gmmu.drain.remember
+//@   ensures m.comp.State.ControlState == memcontrolprotocol.StateDraining && m.comp.State.CurrentCmdID == req.ID && m.comp.State.CurrentCmdSrc == req.Src && unchanged(m.comp.State.WalkingTranslations) && unchanged(m.comp.State.RemoteMemReqs)
 //@   assigns m.comp.State.ControlState, m.comp.State.CurrentCmdID, m.comp.State.CurrentCmdSrc, inTyp, inVal, retrCnt
 
+//@ func c18P(m, n) = ifaceval(c18Port(m, n))
 //@ fn (*ctrlMiddleware).topPort
 //@   property C18
 //@   requires c18WF(m)
-//@   label C18.sbm.topport
+//@   label C18.gmmu.topport
 //@   ensures result == c18Port(m, "Top")
 //@   assigns nothing
-
-//@ fn bankIsQuiescent
+//@ fn (*ctrlMiddleware).bottomPort
 //@   property C18
-//@   requires b != nil
-//@   label C18.sbm.bankquiet
-//@   ensures result <==> len(b.Pipeline.stages) == 0 && len(b.PostPipelineBuf.elements) == 0
+//@   requires c18WF(m)
+//@   label C18.gmmu.bottomport
+//@   ensures result == c18Port(m, "Bottom")
 //@   assigns nothing
 
-//@ fn buildInitialBanks
-//@   property C18
-//@   requires 0 <= spec.NumBanks && spec.NumBanks <= 1<<30
-//@   label C18.sbm.newbanks
-//@   ensures fresh(result) && len(result) == spec.NumBanks && (forall i in 0..len(result) :: len(result[i].Pipeline.stages) == 0 && len(result[i].PostPipelineBuf.elements) == 0)
-//@   assigns nothing
-//@   loop 0: invariant fresh(banks) && len(banks) == spec.NumBanks && -1 <= rangeindex && rangeindex < len(banks)
-//@   loop 0: invariant forall j in 0..rangeindex + 1 :: len(banks[j].Pipeline.stages) == 0 && len(banks[j].PostPipelineBuf.elements) == 0
 
-//@ fn (*ctrlMiddleware).endItemTasks
-//@   property C18
-//@   requires m.comp != nil
-//@   assigns nothing
-//@ fn (*ctrlMiddleware).endInflightTasks
-//@   property C18
-//@   requires m.comp != nil
-//@   assigns nothing
-//@   loop 0: invariant -1 <= rangeindex && rangeindex < len(m.comp.State.Banks)
-//@   loop 1: invariant -1 <= rangeindex && rangeindex < len(bank.Pipeline.stages)
-//@   loop 2: invariant -1 <= rangeindex && rangeindex < len(bank.PostPipelineBuf.elements)
-
-// ---- reset: every bank rebuilt (quiescent), agent enabled, then ONE ack ----
-//@ pred c18SpecOK(m) = 0 <= m.comp.spec.NumBanks && m.comp.spec.NumBanks <= 1<<30
-//@ pred c18OthersKept(m) = forall p int :: p != c18Ctl(m) && p != ifaceval(c18Port(m, "Top")) ==> inTyp[p] == old(inTyp)[p] && inVal[p] == old(inVal)[p] && retrCnt[p] == old(retrCnt)[p]
+// ---- reset: in-flight bookkeeping cleared, agent enabled, then ONE ack ----
+//@ pred c18OthersKept(m) = forall p int :: p != c18Ctl(m) && p != c18P(m, "Top") && p != c18P(m, "Bottom") ==> inTyp[p] == old(inTyp)[p] && inVal[p] == old(inVal)[p] && retrCnt[p] == old(retrCnt)[p]
 //@ pred c18CtlInKept(m) = inTyp[c18Ctl(m)] == old(inTyp)[c18Ctl(m)] && inVal[c18Ctl(m)] == old(inVal)[c18Ctl(m)] && retrCnt[c18Ctl(m)] == old(retrCnt)[c18Ctl(m)]
-//@ pred c18ResetDone(m) = m.comp.State.ControlState == memcontrolprotocol.StateEnabled && c18Quiet(m) && m.comp.State.CurrentCmdID == 0 && m.comp.State.CurrentCmdSrc == ""
+//@ pred c18ResetDone(m) = m.comp.State.ControlState == memcontrolprotocol.StateEnabled && len(m.comp.State.WalkingTranslations) == 0 && len(m.comp.State.RemoteMemReqs) == 0 && len(m.comp.State.ToRemoveFromPTW) == 0 && m.comp.State.CurrentCmdID == 0 && m.comp.State.CurrentCmdSrc == ""
 //@ fn (*ctrlMiddleware).handleReset
 //@   property C18
-//@   requires c18WF(m) && idGenOK() && inTyp[c18Ctl(m)] != 0 && c18SpecOK(m)
-//@   label C18.sbm.reset.progress
+//@   requires c18WF(m) && idGenOK() && inTyp[c18Ctl(m)] != 0
+//@   label C18.gmmu.reset.progress
 //@   ensures result <==> old(canSend[c18Ctl(m)])
-//@   label C18.sbm.reset.once
+//@   label C18.gmmu.reset.once
 //@   ensures result ==> c18OneSent(c18Ctl(m)) && retrCnt[c18Ctl(m)] == old(retrCnt)[c18Ctl(m)] + 1 && c18OthersKept(m)
-//@   label C18.sbm.reset.blocked
+//@   label C18.gmmu.reset.blocked
 //@   ensures !result ==> c18NoSend() && c18NoRetr() && c18Kept(m)
-//@   label C18.sbm.reset.echo
+//@   label C18.gmmu.reset.echo
 //@   ensures result ==> c18Answers(m, memcontrolprotocol.CmdReset, req.ID, req.Src, true, "")
-//@   label C18.sbm.reset.state
+//@   label C18.gmmu.reset.state
 //@   ensures result ==> c18ResetDone(m)
-//@   label C18.sbm.reset.idgen
+//@   label C18.gmmu.reset.idgen
 //@   ensures idGenOK()
-//@   assigns m.comp.State.ControlState, m.comp.State.CurrentCmdID, m.comp.State.CurrentCmdSrc, m.comp.State.Banks, canSend, sendCnt, sentTyp, sentVal, inTyp, inVal, retrCnt, issued, key("G|github.com/sarchlab/akita/v5/timing.idGenerator|"), key("G|github.com/sarchlab/akita/v5/timing.idGeneratorInstantiated|"), key("O|timing.sequentialIDGenerator|nextID"), key("O|timing.parallelIDGenerator|nextID")
+//@   assigns m.comp.State.ControlState, m.comp.State.CurrentCmdID, m.comp.State.CurrentCmdSrc, m.comp.State.WalkingTranslations, m.comp.State.RemoteMemReqs, m.comp.State.ToRemoveFromPTW, c03EndN, c03EndSeq, canSend, sendCnt, sentTyp, sentVal, inTyp, inVal, retrCnt, issued, key("G|github.com/sarchlab/akita/v5/timing.idGenerator|"), key("G|github.com/sarchlab/akita/v5/timing.idGeneratorInstantiated|"), key("O|timing.sequentialIDGenerator|nextID"), key("O|timing.parallelIDGenerator|nextID")
 //@   loop 0: invariant c18WF(m) && idGenOK()
 //@   loop 0: invariant c18CtlInKept(m) && c18OthersKept(m)
 //@   loop 0: invariant sendCnt == old(sendCnt) && sentTyp == old(sentTyp) && sentVal == old(sentVal) && canSend == old(canSend)
 //@   loop 0: invariant c18ResetDone(m)
+//@   loop 1: invariant c18WF(m) && idGenOK()
+//@   loop 1: invariant c18CtlInKept(m) && c18OthersKept(m)
+//@   loop 1: invariant sendCnt == old(sendCnt) && sentTyp == old(sentTyp) && sentVal == old(sentVal) && canSend == old(canSend)
+//@   loop 1: invariant c18ResetDone(m)
 
 // ---- deferred drain ack: only when quiescent (c18Quiet) and the port can send; lands in Paused ----
 //@ fn (*ctrlMiddleware).completePendingDrain
 //@   property C18
 //@   requires c18WF(m) && idGenOK()
-//@   label C18.sbm.drain.progress
+//@   label C18.gmmu.drain.progress
 //@   ensures result <==> old(m.comp.State.ControlState == memcontrolprotocol.StateDraining && c18Quiet(m) && canSend[c18Ctl(m)])
-//@   label C18.sbm.drain.once
+//@   label C18.gmmu.drain.once
 //@   ensures (result ==> c18OneSent(c18Ctl(m))) && c18NoRetr()
-//@   label C18.sbm.drain.echo
+//@   label C18.gmmu.drain.echo
 //@   ensures result ==> c18Answers(m, memcontrolprotocol.CmdDrain, old(m.comp.State.CurrentCmdID), old(m.comp.State.CurrentCmdSrc), true, "")
-//@   label C18.sbm.drain
-//@   ensures result ==> m.comp.State.ControlState == memcontrolprotocol.StatePaused && c18Quiet(m) && unchanged(m.comp.State.Banks)
-//@   label C18.sbm.drain.wait
+//@   label C18.gmmu.drain
+//@   ensures result ==> m.comp.State.ControlState == memcontrolprotocol.StatePaused && c18Quiet(m) && unchanged(m.comp.State.WalkingTranslations) && unchanged(m.comp.State.RemoteMemReqs)
+//@   label C18.gmmu.drain.wait
 //@   ensures !result ==> c18NoSend() && c18Kept(m)
-//@   label C18.sbm.drain.idgen
+//@   label C18.gmmu.drain.idgen
 //@   ensures idGenOK()
 //@   assigns m.comp.State.ControlState, canSend, sendCnt, sentTyp, sentVal, issued, key("G|github.com/sarchlab/akita/v5/timing.idGenerator|"), key("G|github.com/sarchlab/akita/v5/timing.idGeneratorInstantiated|"), key("O|timing.sequentialIDGenerator|nextID"), key("O|timing.parallelIDGenerator|nextID")
-//@   loop 0: invariant -1 <= rangeindex && rangeindex < len(m.comp.State.Banks)
-//@   loop 0: invariant forall j in 0..rangeindex + 1 :: c18BankQuiet(m, j)
 
 // ---- one control step: the message at the head of the Control port ----
 //@ func c18Hd(m) = old(c18Head(c18Ctl(m)))
@@ -257,49 +230,49 @@ package simplebankedmemory
 //@ pred c18HdSync(m) = c18IsReq(c18Hd(m)) && c18HdCmd(m) != memcontrolprotocol.CmdDrain
 //@ fn (*ctrlMiddleware).handleIncoming
 //@   property C18
-//@   requires c18WF(m) && idGenOK() && c18SpecOK(m)
-//@   label C18.sbm.idle
+//@   requires c18WF(m) && idGenOK()
+//@   label C18.gmmu.idle
 //@   ensures old(inTyp)[c18Ctl(m)] == 0 ==> !result && c18NoSend() && c18NoRetr() && c18Kept(m)
-//@   label C18.sbm.nonreq
+//@   label C18.gmmu.nonreq
 //@   ensures old(inTyp)[c18Ctl(m)] != 0 && !c18IsReq(c18Hd(m)) ==> result && c18NoSend() && c18OneRetr(c18Ctl(m)) && c18Kept(m)
-//@   label C18.sbm.once
+//@   label C18.gmmu.once
 //@   ensures c18HdSync(m) ==> (result <==> old(canSend[c18Ctl(m)])) && (result ==> c18OneSent(c18Ctl(m)) && retrCnt[c18Ctl(m)] == old(retrCnt)[c18Ctl(m)] + 1)
-//@   label C18.sbm.once.blocked
+//@   label C18.gmmu.once.blocked
 //@   ensures c18HdSync(m) && !result ==> c18NoSend() && c18NoRetr() && c18Kept(m)
-//@   label C18.sbm.sendframe
+//@   label C18.gmmu.sendframe
 //@   ensures c18NoSend() || c18OneSent(c18Ctl(m))
-//@   label C18.sbm.echo
+//@   label C18.gmmu.echo
 //@   ensures c18HdSync(m) && result ==> c18IsRsp(c18Last(c18Ctl(m))) && c18Rsp(c18Ctl(m)).Command == c18HdCmd(m) && c18Rsp(c18Ctl(m)).RspTo == c18Req(c18Hd(m)).ID && c18Rsp(c18Ctl(m)).Dst == c18Req(c18Hd(m)).Src
-//@   label C18.sbm.unsupported
+//@   label C18.gmmu.unsupported
 //@   ensures c18HdSync(m) && result && !c18Supported(c18HdCmd(m)) ==> !c18Rsp(c18Ctl(m)).Success && c18Rsp(c18Ctl(m)).Error == memcontrolprotocol.ErrUnsupported && c18Kept(m)
-//@   label C18.sbm.supported
+//@   label C18.gmmu.supported
 //@   ensures c18HdSync(m) && result && c18Supported(c18HdCmd(m)) ==> c18Rsp(c18Ctl(m)).Success && c18Rsp(c18Ctl(m)).Error == ""
-//@   label C18.sbm.pause
-//@   ensures c18HdSync(m) && result && c18HdCmd(m) == memcontrolprotocol.CmdPause ==> m.comp.State.ControlState == memcontrolprotocol.StatePaused && unchanged(m.comp.State.Banks)
-//@   label C18.sbm.enable
-//@   ensures c18HdSync(m) && result && c18HdCmd(m) == memcontrolprotocol.CmdEnable ==> m.comp.State.ControlState == memcontrolprotocol.StateEnabled && unchanged(m.comp.State.Banks)
-//@   label C18.sbm.reset
+//@   label C18.gmmu.pause
+//@   ensures c18HdSync(m) && result && c18HdCmd(m) == memcontrolprotocol.CmdPause ==> m.comp.State.ControlState == memcontrolprotocol.StatePaused && unchanged(m.comp.State.WalkingTranslations) && unchanged(m.comp.State.RemoteMemReqs)
+//@   label C18.gmmu.enable
+//@   ensures c18HdSync(m) && result && c18HdCmd(m) == memcontrolprotocol.CmdEnable ==> m.comp.State.ControlState == memcontrolprotocol.StateEnabled && unchanged(m.comp.State.WalkingTranslations) && unchanged(m.comp.State.RemoteMemReqs)
+//@   label C18.gmmu.reset
 //@   ensures c18HdSync(m) && result && c18HdCmd(m) == memcontrolprotocol.CmdReset ==> c18ResetDone(m)
-//@   label C18.sbm.drain.accepted
-//@   ensures c18IsReq(c18Hd(m)) && c18HdCmd(m) == memcontrolprotocol.CmdDrain ==> result && c18NoSend() && c18OneRetr(c18Ctl(m)) && m.comp.State.ControlState == memcontrolprotocol.StateDraining && m.comp.State.CurrentCmdID == c18Req(c18Hd(m)).ID && m.comp.State.CurrentCmdSrc == c18Req(c18Hd(m)).Src && unchanged(m.comp.State.Banks)
-//@   label C18.sbm.step.idgen
+//@   label C18.gmmu.drain.accepted
+//@   ensures c18IsReq(c18Hd(m)) && c18HdCmd(m) == memcontrolprotocol.CmdDrain ==> result && c18NoSend() && c18OneRetr(c18Ctl(m)) && m.comp.State.ControlState == memcontrolprotocol.StateDraining && m.comp.State.CurrentCmdID == c18Req(c18Hd(m)).ID && m.comp.State.CurrentCmdSrc == c18Req(c18Hd(m)).Src && unchanged(m.comp.State.WalkingTranslations) && unchanged(m.comp.State.RemoteMemReqs)
+//@   label C18.gmmu.step.idgen
 //@   ensures idGenOK()
-//@   assigns m.comp.State.ControlState, m.comp.State.CurrentCmdID, m.comp.State.CurrentCmdSrc, m.comp.State.Banks, canSend, sendCnt, sentTyp, sentVal, inTyp, inVal, retrCnt, issued, key("G|github.com/sarchlab/akita/v5/timing.idGenerator|"), key("G|github.com/sarchlab/akita/v5/timing.idGeneratorInstantiated|"), key("O|timing.sequentialIDGenerator|nextID"), key("O|timing.parallelIDGenerator|nextID")
+//@   assigns m.comp.State.ControlState, m.comp.State.CurrentCmdID, m.comp.State.CurrentCmdSrc, m.comp.State.WalkingTranslations, m.comp.State.RemoteMemReqs, m.comp.State.ToRemoveFromPTW, c03EndN, c03EndSeq, canSend, sendCnt, sentTyp, sentVal, inTyp, inVal, retrCnt, issued, key("G|github.com/sarchlab/akita/v5/timing.idGenerator|"), key("G|github.com/sarchlab/akita/v5/timing.idGeneratorInstantiated|"), key("O|timing.sequentialIDGenerator|nextID"), key("O|timing.parallelIDGenerator|nextID")
 
 // ---- one tick: commands are taken one at a time; while a drain is pending no request is retrieved ----
 //@ pred c18DrainPending(m) = m.comp.State.ControlState == memcontrolprotocol.StateDraining && !(c18Quiet(m) && canSend[c18Ctl(m)])
 //@ pred c18DrainDue(m) = m.comp.State.ControlState == memcontrolprotocol.StateDraining && c18Quiet(m) && canSend[c18Ctl(m)]
 //@ fn (*ctrlMiddleware).Tick
 //@   property C18
-//@   requires c18WF(m) && idGenOK() && c18SpecOK(m)
-//@   label C18.sbm.serial
+//@   requires c18WF(m) && idGenOK()
+//@   label C18.gmmu.serial
 //@   ensures old(c18DrainPending(m)) ==> !result && c18NoSend() && c18NoRetr() && c18Kept(m)
-//@   label C18.sbm.serial.one
+//@   label C18.gmmu.serial.one
 //@   ensures old(retrCnt)[c18Ctl(m)] <= retrCnt[c18Ctl(m)] && retrCnt[c18Ctl(m)] <= old(retrCnt)[c18Ctl(m)] + 1
-//@   label C18.sbm.serial.ackfirst
+//@   label C18.gmmu.serial.ackfirst
 //@   ensures old(c18DrainDue(m)) ==> sendCnt[c18Ctl(m)] > old(sendCnt)[c18Ctl(m)] && c18IsRsp(c18SentAt(c18Ctl(m), old(sendCnt)[c18Ctl(m)])) && as(c18SentAt(c18Ctl(m), old(sendCnt)[c18Ctl(m)]), "memcontrolprotocol.Rsp").Command == memcontrolprotocol.CmdDrain && as(c18SentAt(c18Ctl(m), old(sendCnt)[c18Ctl(m)]), "memcontrolprotocol.Rsp").RspTo == old(m.comp.State.CurrentCmdID)
-//@   label C18.sbm.serial.sends
+//@   label C18.gmmu.serial.sends
 //@   ensures old(sendCnt)[c18Ctl(m)] <= sendCnt[c18Ctl(m)] && sendCnt[c18Ctl(m)] <= old(sendCnt)[c18Ctl(m)] + (old(c18DrainDue(m)) ? 2 : 1)
-//@   label C18.sbm.tick.idgen
+//@   label C18.gmmu.tick.idgen
 //@   ensures idGenOK()
-//@   assigns m.comp.State.ControlState, m.comp.State.CurrentCmdID, m.comp.State.CurrentCmdSrc, m.comp.State.Banks, canSend, sendCnt, sentTyp, sentVal, inTyp, inVal, retrCnt, issued, key("G|github.com/sarchlab/akita/v5/timing.idGenerator|"), key("G|github.com/sarchlab/akita/v5/timing.idGeneratorInstantiated|"), key("O|timing.sequentialIDGenerator|nextID"), key("O|timing.parallelIDGenerator|nextID")
+//@   assigns m.comp.State.ControlState, m.comp.State.CurrentCmdID, m.comp.State.CurrentCmdSrc, m.comp.State.WalkingTranslations, m.comp.State.RemoteMemReqs, m.comp.State.ToRemoveFromPTW, c03EndN, c03EndSeq, canSend, sendCnt, sentTyp, sentVal, inTyp, inVal, retrCnt, issued, key("G|github.com/sarchlab/akita/v5/timing.idGenerator|"), key("G|github.com/sarchlab/akita/v5/timing.idGeneratorInstantiated|"), key("O|timing.sequentialIDGenerator|nextID"), key("O|timing.parallelIDGenerator|nextID")
